@@ -1404,7 +1404,7 @@ namespace link_layer {
             && transmit_window_size_ <= connection_interval_
             && connection_timeout_ >= minimum_connection_timeout
             && connection_timeout_ <= maximum_connection_timeout
-            && connection_timeout_ >= ( peripheral_latency_ + 1 ) * 2 * connection_interval_
+            && connection_timeout_ > ( peripheral_latency_ + 1 ) * 2 * connection_interval_
             && peripheral_latency_ <= maximum_link_layer_peripheral_latency;
     }
 
